@@ -221,3 +221,18 @@ PROPS["C16"] = C16Prop(
     "had not exited 0; exit status non-zero with the abort message, no other exception. evaluations = scenarios + "
     "signal points; distinct = distinct (shape, digest, window); non-trivial = the signal was delivered",
     quick_count=256, quick_budget=100.0)
+reg("C10", "scenario = 1-4 tasks (mostly experiments, args/options of every primitive type) + runs in "
+    "sequential (teed through the two tee threads) and parallel (file handed to the child) mode; every child "
+    "script interleaves writes on stdout/stderr of 0 B .. 140 kB (text, random bytes, all 256 values), some "
+    "exit before the pipe is drained; the scheduler decides when each tee thread performs each raw read. "
+    "Oracle: stdout.log / stderr.log byte-equal to the scripted streams; in teed mode the bytes between the "
+    "task's status lines on Conductor's own stdout, and the prefix of its stderr, equal them too; args.json / "
+    "options.json present iff non-empty and decoding to the declared values. distinct = distinct (shape, digest); "
+    "non-trivial = an experiment ran to completion and its logs were compared", quick_count=700, quick_budget=80.0)
+reg("C11", "scenario = nested packages with experiments and non-archivable tasks in between + 1-4 runs (several "
+    "versions per task, arbitrary file trees: nested directories, empty directories, files of 0 B..70 kB, "
+    "look-alike *.task.N directories inside outputs, symbolic links) + cond archive [T] [--latest] [-o] (real tar) "
+    "+ clean / fresh cond-out + cond restore; oracle: rows inside the archive and rows gained by the restore == "
+    "the documented selection, identical ids / commit / dirty flag, each restored tree (names, types, contents, "
+    "link targets) == the source tree at archive time, source project untouched by archive. distinct = distinct "
+    "(shape, digest); non-trivial = an archive with >= 1 version was created or round-tripped", quick_count=600)
